@@ -317,6 +317,10 @@ def fmod_real(x, m):
     PENDING_FACTS.append(z3.Implies(m > 0, z3.And(r >= 0, r < m)))
     PENDING_FACTS.append(z3.Implies(z3.And(m > 0, x >= 0, x < m), r == x))
     PENDING_FACTS.append(r == x - z3.ToReal(k) * m)
+    if z3.eq(z3.simplify(m - 2 * PI), z3.RealVal(0)):
+        # A-TRIG: sin and cos have period 2*pi
+        PENDING_FACTS.append(z3.And(F_SIN(r) == F_SIN(x), F_COS(r) == F_COS(x)))
+        PENDING_FACTS.append(F_SIN(r) * F_SIN(r) + F_COS(r) * F_COS(r) == 1)
     return r
 
 
